@@ -117,6 +117,7 @@ type FnCtx struct {
 	curStrict bool
 	curLabelBase string
 	tailDup  int
+	addrFns  []string
 	inlineOld *State // while inlining a callee: the state at the inlined call (meaning of old() in its loop invariants)
 	touchedMu map[string]bool
 	known    map[string]map[string]bool // pc -> normalised facts assumed under exactly that pc
